@@ -841,6 +841,21 @@ struct FilesEngine : Engine {
 				plain = p2;
 				badimg = std::string("TZm1 this is not a compiled zone map, it only starts like one....", 64);
 			}
+			/* a map that is refused thirty times over, in a process that may hold twenty descriptors:
+			 * a refusal must give back what the attempt took */
+			bool refuse_often = ((h >> 12) & 7) == 0;
+			if (refuse_often) {
+				std::vector<std::string> s2 = {specs[0]}, p2 = {plain[0]};
+				for (int i = 0; i < 30; i++) {
+					s2.push_back("bad:" + ent[pick[i % pick.size()]].first);
+					p2.push_back("");
+				}
+				s2.push_back(specs[1]);
+				p2.push_back(plain[1]);
+				specs = s2;
+				plain = p2;
+				badimg = "pending";
+			}
 			bool usable = true;
 			for (auto &sp : specs)
 				if (sp.size() > 200 || sp.find_first_of(" \t\n") != std::string::npos || sp[0] == '-')
@@ -885,6 +900,18 @@ struct FilesEngine : Engine {
 				i2.path = "/sim/mm.tzmcc";
 				i2.data = img2;
 				t1.files = {i1, i2};
+				if (refuse_often) {
+					/* the good image with one damaged octet: the zone name pool no longer ends in NUL
+					 * (magic, size and offset stay valid), or the last record no longer does */
+					badimg = img1;
+					size_t off = badimg.size() >= 16 ? ((size_t)(unsigned char)badimg[4] << 24 | (size_t)(unsigned char)badimg[5] << 16 |
+									     (size_t)(unsigned char)badimg[6] << 8 | (size_t)(unsigned char)badimg[7]) : 0;
+					if (off && 16 + off <= badimg.size() && ((h >> 15) & 1))
+						badimg[16 + off - 1] = 'A';
+					else if (badimg.size() > 20)
+						badimg[badimg.size() - 4] = 'A';
+					t1.par["nofile"] = "20";
+				}
 				if (!badimg.empty()) {
 					SimFile i3;
 					i3.path = "/sim/bad.tzmcc";
